@@ -663,7 +663,10 @@ M('add', 'set', 'writes(recv) [container]; stores argument',
 def _cont_remove(cx, node, recv, args, kw):
     m = node.func.attr
     cx.write_cont(recv, node, f'.{m}() changes the element list of')
-    if recv.may('dict'):
+    # `d.pop(key, default)` as a statement only REMOVES the key: the old value flows nowhere and a missing key is not an error,
+    # so nothing is read from an earlier call (C10); every other use of pop reads the entry
+    discards = m == 'pop' and len(args) > 1 and getattr(node, '_result_unused', False)
+    if recv.may('dict') and not discards:
         cx.dict_read(recv, args[0] if args else None, node, f'.{m}()')
     if m in ('pop', 'popitem'):
         r = cx.elem_of(recv)
